@@ -18,14 +18,31 @@ def parsePK (s : String) : Option (Nat × Nat) :=
     | _, _ => none
   | _ => none
 
+/-- `P.K[.V[.Q]]`: peer, resource, token variant (0..2), query variant (0..1) -/
+def parseObs (s : String) : Option (Nat × Nat × Nat × Nat) :=
+  match (s.splitOn ".").mapM String.toNat? with
+  | some [p, k] => if p < 50 && k < 2 then some (p, k, 0, 0) else none
+  | some [p, k, v] => if p < 50 && k < 2 && v < 3 then some (p, k, v, 0) else none
+  | some [p, k, v, q] => if p < 50 && k < 2 && v < 3 && q < 2 then some (p, k, v, q) else none
+  | _ => none
+
+/-- `P.J`: peer, how many notifications back (0 = the latest, .. 3) -/
+def parsePJ (s : String) : Option (Nat × Nat) :=
+  match (s.splitOn ".").mapM String.toNat? with
+  | some [p, j] => if p < 50 && j < 4 then some (p, j) else none
+  | _ => none
+
 def parseEvent (tok : String) : Option Event :=
   match tok.toList with
   | [] => none
   | c :: rest =>
     let arg := String.ofList rest
     if c = 'r' then (parsePK arg).map fun (p, _) => .rx (peerOf p) .plain
-    else if c = 'o' then (parsePK arg).map fun (p, k) => .rx (peerOf p) (.obsReg k)
-    else if c = 'd' then (parsePK arg).map fun (p, k) => .rx (peerOf p) (.obsDereg k)
+    else if c = 'o' then (parseObs arg).map fun (p, k, v, q) => .rx (peerOf p) (.obsReg k q v)
+    else if c = 'd' then (parseObs arg).map fun (p, k, v, q) => .rx (peerOf p) (.obsDereg k q v)
+    else if c = 'c' then (if arg = "0" then some (.changed 0) else if arg = "1" then some (.changed 1) else none)
+    else if c = 't' then (parsePJ arg).map fun (p, j) => .noteRst (peerOf p) j
+    else if c = 'y' then (parsePJ arg).map fun (p, j) => .noteAck (peerOf p) j
     else if c = 'a' then (parsePK arg).map fun (p, _) => .rx (peerOf p) .async
     else if c = 'f' then (parsePK arg).map fun (p, _) => .asyncFree (peerOf p)
     else if c = 'q' then (parsePK arg).map fun (p, _) => .ping (peerOf p)
@@ -63,13 +80,16 @@ def showState (st : St) : String :=
   -- M's `ref`; S's holder count is printed next to it only if it differs (by `ref_eq_holders` it never does), so the
   -- reference counts the implementation is compared with ARE the numbers of holders
   let rs := st.sessions.map fun s => toString s.idx ++ "=" ++ toString s.ref ++
-    (if s.ref = st.holds s.sid then "" else "!holds" ++ toString (st.holds s.sid)) ++ "@" ++ toString s.last
+    (if s.ref = st.holds s.sid then "" else "!holds" ++ toString (st.holds s.sid)) ++ "@" ++ toString s.last ++
+    "#" ++ toString s.notes
   "R" ++ (if rs.isEmpty then "-" else String.intercalate "," rs) ++
   " I" ++ toString (st.idleOn 0 1).length ++ "/" ++ toString (st.idleOn 1 1).length
 
 def showLive (st : St) : String :=
   "L" ++ toString st.sessions.length ++ "/" ++ toString (st.holders.filter fun h => isAnyObs h.kind).length ++ "/" ++
-  toString (st.holders.filter fun h => isNode h.kind).length
+  toString (st.holders.filter fun h => isNode h.kind).length ++ "/" ++
+  toString (st.holders.filter fun h => isAsync h.kind).length ++ "/" ++
+  toString (st.holders.filter fun h => isApp h.kind).length
 
 def showOutcome (st : St) : Outcome → String
   | .handled sid => "h" ++ showIdx st.events sid
